@@ -73,6 +73,10 @@ CHECKS = {
          "Programs of proposals (sequential, same-side concurrent, cross-channel, both-sides concurrent) with accept/reject decisions and handler delays; at every Enabled event the transaction must be fully signed with version = previous+1, persister calls per channel must not overlap, and in runs without timeouts versions differ by at most one, no version gets two fully signed states, Update results agree with both parties' states and both stay ready for further updates.",
          "Trusted: recording persister ordering (one shared counter); decisions are fed to the handler in FIFO order per (receiver, channel). Runs with timeouts keep only the fully-signed invariant, as the statement says.",
          "DESIGN.md §5 C06"),
+ "C08": ("exploration", "runtime monitoring: real clients opening ledger/sub/virtual channels under bus noise with both sides' results compared; mutated proposals injected on the bus with a recording proposal handler and a barrier; child processes attribute crashes",
+         "Positives compare ID, participant order, nonce, app, duration, flags and the fully signed version-0 state of both returned channels with the proposal, and nonce-share differential pairs must change the ID. Negatives deliver every single-condition mutation of well-formed proposals (30 mutators over the three proposal kinds; objects and both serializers) to a client with matching parents and check, after a barrier, that the handler was never invoked and no channel created; unmutated controls must reach the handler.",
+         "Trusted: the barrier (a later valid proposal from the same sender answered + bus drained + no handler in flight); only natively encodable proposals are delivered.",
+         "DESIGN.md §5 C08"),
 }
 PENDING = {}  # id -> reason, for properties without a check
 
